@@ -195,7 +195,8 @@ def scan(text):
             while j < n:
                 d = text[j]
                 if d == '\\' and j + 1 < n:
-                    buf.append(text[j + 1])
+                    e = text[j + 1]
+                    buf.append({'t': '\t', 'n': '\n', 'r': '\r', 'b': '\b', 'f': '\f'}.get(e, e))
                     j += 2
                     continue
                 if d == q:
